@@ -180,9 +180,27 @@ func (smpl *Simple[Type]) main() {
 	case <-smpl.breaker.IsBreaked():
 	case <-smpl.opts.Ctx.Done():
 	case <-smpl.graceful.IsBreaked():
-		smpl.priority.GracefulStop()
+		smpl.gracefulStop()
 	case err := <-smpl.priority.Err():
 		smpl.err <- err
+	}
+}
+
+// Waits for graceful stop of the prioritization discipline, but remains sensitive to
+// a rough stop and cancellation of the context.
+func (smpl *Simple[Type]) gracefulStop() {
+	stopped := make(chan struct{})
+
+	go func() {
+		defer close(stopped)
+
+		smpl.priority.GracefulStop()
+	}()
+
+	select {
+	case <-smpl.breaker.IsBreaked():
+	case <-smpl.opts.Ctx.Done():
+	case <-stopped:
 	}
 }
 
